@@ -234,7 +234,7 @@ def _pixel_limit_first(ex, st, post, result):
     over = z3.And(z3.Not(limit.isnone), limit.val.t != 0, n > limit.val.t)
     yield ('oversized_request_refused', z3.Not(over),
            'width x height > max_output_pixels => RequestError (the request is not accepted)')
-    vals = T.evs(st, 'validate_layers', 'validate_format', 'validate_srs')
+    vals = T.evs(st, 'validate_layers', 'WMSServer.validate_layers', 'validate_format', 'validate_srs')
     yield ('validated', z3.BoolVal(len(vals) == 3), 'layers, format and SRS are validated on the accepting path')
 
 
